@@ -49,8 +49,12 @@ def holding(id, quick, thorough):
 
 HOLDING_HARNESSES = [
     holding("holding-1", {"maxheld": 1}, {"maxheld": 1}),
-    holding("holding-2", {"maxheld": 2, "fixrates": 1}, {"maxheld": 2}),
+    # thorough = quick for the 2-conversion variant: with symbolic rates the exploration does not finish within the
+    # wall limit (tried: > 1 h); the symbolic-rate formula is covered by holding-1 in both tiers
+    holding("holding-2", {"maxheld": 2, "fixrates": 1}, {"maxheld": 2, "fixrates": 1}),
 ]
+SYNCBLOCKFAULT = {"id": "syncblock-fault", "func": "VerifSyncBlockFault", "pkg": NODE, "pkgname": "node", "load": ["./node"],
+             "params": {"quick": {}, "thorough": {}}, "must_cover": ["reference-applied", "fault-failed-block", "fault-ended-process"], "max_witness_replays": 4}
 APIREADS = {"id": "api-reads", "func": "VerifAPIReads", "pkg": "srv", "pkgname": "srv", "load": ["./srv"],
              "params": {"quick": {}, "thorough": {}}, "must_cover": ["asked"], "max_witness_replays": 6}
 MULTIFETCH = {"id": "multifetch", "func": "VerifMultiFetch", "pkg": NODE, "pkgname": "node", "load": ["./node"],
@@ -201,6 +205,7 @@ PROPS = {
              "must_cover": ["completed", "dev-payout-at-2nd-block", "old-burn-zeroing", "v204-mint"], "max_witness_replays": 4},
             dict(txblock("txblock-fault", {"maxentries": 1, "kindset": 1, "fault": 1}, {"maxentries": 1, "kindset": 0, "fault": 1}),
                  must_cover=["fault-failed-block"]),
+            SYNCBLOCKFAULT,
         ] + BATCH_HARNESSES[:1],
         "wall": {"quick": 400, "thorough": 3000},
         "bounds": {"quick": "the real DBlockSync/SyncBlock loop over 2 blocks in 7 scenarios (developer payout block, both burn-address zeroings, 2.0.4 mint and its burn, a holder-snapshot height, plain heights) with Factom requests stubbed to blocks without tracked entries; crash oracle: the process is killed at EVERY DB-API call of the run (28..509 call sites per scenario), a new process resumes; fault oracle: every DB-API call fails once and the loop goes on (in-memory height == committed height, one version row per height, no gap); plus the handle-discipline monitor (no write outside the block transaction) in the batch harness",
@@ -220,9 +225,10 @@ PROPS = {
             dict(holding("holding-fault", {"maxheld": 1, "fault": 1, "fixrates": 1}, {"maxheld": 1, "fault": 1}),
                  must_cover=["fault-failed-block", "fault-ended-process"]),
             MULTIFETCH,
+            SYNCBLOCKFAULT,
         ],
         "wall": {"quick": 400, "thorough": 3000},
-        "bounds": {"quick": "as C02's loop harness with the fault oracle: EVERY single DB-API call of the run fails once (error, no effect), or one of the first 8 upstream Factom requests fails once; the loop's own retry then completes the sync; plus the per-block units with content: ApplyTransactionBlock over 1 entry of every kind and the holding pass (SyncBank + ApplyTransactionBatchesInHolding) over 1 held conversion, each with EVERY single DB-API call of the unit failing once, compared against the same symbolic scenario run without a fault (a unit that reports success must have left exactly the fault-free store)", "thorough": "same, all entry kinds / symbolic rates"},
+        "bounds": {"quick": "as C02's loop harness with the fault oracle: EVERY single DB-API call of the run fails once (error, no effect), or one of the first 8 upstream Factom requests fails once; the loop's own retry then completes the sync; plus the per-block units with content: ApplyTransactionBlock over 1 entry of every kind and the holding pass (SyncBank + ApplyTransactionBatchesInHolding) over 1 held conversion, each with EVERY single DB-API call of the unit failing once, compared against the same symbolic scenario run without a fault (a unit that reports success must have left exactly the fault-free store); the whole SyncBlock with content (OPR+SPR winner, rates, held conversion, transfer entry, holders) at 3 heights with every DB call failing once, retried by the same daemon; multiFetch with a failing request under the scheduling oracles", "thorough": "same, all entry kinds / symbolic rates"},
         "assumptions": ["single transient fault per run; a failed COMMIT leaves nothing applied (go-sqlite3 rolls back)",
                         "multiFetch: goroutines and channels are sequentialised (deterministic scheduling, no preemption between channel operations) with two oracles: a worker may be overtaken while its request is in flight, and any of several waiting workers may deliver first; 1..3 entries, one failing request",
                         "log.Fatal (process exit after an unrecoverable rollback error) counts as 'not committed short'"],
@@ -346,8 +352,8 @@ PROPS = {
     },
     "C06": {
         "asserts": ["C06.", "uncaught-panic"],
-        "harnesses": TXBLOCK_HARNESSES + HOLDING_HARNESSES,
-        "bounds": {"quick": "as C05 (same harness; duplicates within a block, across adjacent blocks, of executed/pending/rejected entries)", "thorough": "as C05"},
+        "harnesses": TXBLOCK_HARNESSES + HOLDING_HARNESSES + [SYNCBLOCKFAULT],
+        "bounds": {"quick": "as C05 (same harness; duplicates within a block, across adjacent blocks, of executed/pending/rejected entries); plus a whole block with content (winners, rates, a held conversion, a transfer) retried after a failed DB call", "thorough": "as C05"},
         "assumptions": TXBLOCK_ASSUMPTIONS,
     },
     "C08": {
